@@ -168,7 +168,9 @@ func (z *reader) Reset(r io.Reader, dict []byte) error {
 		}
 	}
 
-	if z.decompressor == nil {
+	if z.decompressor == nil || haveDict {
+		// fastgo's own inflater has no preset-dictionary support and ignores the
+		// dictionary passed to its Reset: dictionary streams always go to compress/flate
 		if haveDict {
 			z.decompressor = flate.NewReaderDict(z.r, dict)
 		} else {
